@@ -48,7 +48,6 @@ MALFORMED = [
     ("dict_nofun", dict(constraints=[{"type": "eq"}])),
     ("callback_not_callable", dict(callback=3)),
     ("lin_cols", "LinCols"),
-    ("lin_lb_2d", "LinLb2d"),
     ("nl_lb_2d", "NlLb2d"),
     ("maxfev_0", dict(options={"maxfev": 0})),
     ("maxiter_neg", dict(options={"maxiter": -1})),
@@ -74,9 +73,6 @@ def run_malformed(case):
         kw["bounds"] = Bounds([0, 0, 0], [1, 1, 1])
     elif how == "LinCols":
         kw["constraints"] = [LinearConstraint(np.ones((1, 3)), 0, 1)]
-    elif how == "LinLb2d":
-        kw["constraints"] = [LinearConstraint(np.ones((2, 2)),
-                                              np.zeros((2, 2)), np.ones(2))]
     elif how == "NlLb2d":
         kw["constraints"] = [NonlinearConstraint(lambda x: x, np.zeros((2, 2)),
                                                  np.ones(2))]
